@@ -4,6 +4,7 @@ import MoneroModel.Proofs.Json5
 import MoneroModel.Proofs.Json6
 import MoneroModel.Proofs.Json7
 import MoneroModel.Proofs.JsonShapes
+import MoneroModel.Props.C02
 import MoneroModel.Props.C12
 import MoneroModel.Props.C15
 open Monero Monero.Json
@@ -88,20 +89,24 @@ any bytes) round-trips through its JSON tree … -/
 theorem C19_roundtrip_decoded_SubField (vk : Bytes → Bool) (b r : Bytes) (sf : Extra.SubField)
     (h : Extra.subFieldRd vk b = (some sf, r)) : subFieldFromJson (subFieldJ sf) = some sf :=
   subField_rt sf (subFieldRd_wf vk b sf r h)
-/-- … and so does the `ExtraField` that `ExtraField::try_parse` / `RawExtraField::try_parse` return for ANY raw extra (complete
-parse or salvaged fields) -/
+/-- … and so does the `ExtraField` that `ExtraField::try_parse` returns for ANY raw extra (complete parse, `Ok`, or salvaged
+fields, `Err`). `RawExtraField::try_parse` returns the same fields whichever the flag — in the model BY DEFINITION (second
+conjunct, `rfl`: it adds no case of its own, it only names the alias), in the code by unwrapping either side of the `Result` -/
 theorem C19_roundtrip_parsed_ExtraField (vk : Bytes → Bool) (e : Bytes) :
     extraFieldFromJson (extraFieldJ (Extra.tryParse vk e).fields) = some (Extra.tryParse vk e).fields ∧
-    extraFieldFromJson (extraFieldJ (Extra.rawTryParse vk e)) = some (Extra.rawTryParse vk e) :=
-  ⟨extraField_rt _ (tryParse_wf vk e), extraField_rt _ (tryParse_wf vk e)⟩
+    Extra.rawTryParse vk e = (Extra.tryParse vk e).fields :=
+  ⟨extraField_rt _ (tryParse_wf vk e), rfl⟩
 
-/-- the variant names are pairwise distinct (so the first matching branch of the reader is the only one), and a document
-naming no variant of `SubField` is refused -/
+/-- a document naming no variant of `SubField` is refused -/
 theorem C19_SubField_unknown_variant_refused (tag : String) (c : Json) (h : tag ∉ subFieldNames) :
     subFieldFromJson (.obj [(tag, c)]) = none := by
   simp only [subFieldNames, List.mem_cons, List.not_mem_nil, or_false, not_or] at h
   obtain ⟨h1, h2, h3, h4, h5, h6⟩ := h
   simp only [subFieldFromJson, h1, h2, h3, h4, h5, h6, if_false]
+
+/-- the variant names are pairwise distinct — of `SubField` (so the first matching branch of the `if`-chain of the reader is the
+only one) and of `RctType` (so `findIdx?` finds THE variant) -/
+theorem C19_variant_names_distinct : subFieldNames.Nodup ∧ rctNames.Nodup := by decide
 
 /-! ## transaction, block -/
 
@@ -149,13 +154,19 @@ theorem C19_roundtrip_wire_then_json (t : Tx) (h : _root_.wfTx t) (r : Bytes) :
 /-! ## the shapes are those DECLARED in /repo (relation A)
 
 `Gen/JsonShapes.lean` is regenerated from the current source on every run: every struct / enum deriving `Serialize` /
-`Deserialize` with its field / variant identifiers in declaration order and every `serde(..)` attribute. The theorems below tie
-the hand-written names of `Model/Json.lean` to that table: a renamed, added, removed or reordered field or variant, a new
-deriving type, a new attribute (`default`, `rename`, `skip…`, `flatten`, `with`, `tag`, …) or a new hand-written impl makes one
-of them false, i.e. the build of this file fails. (The READERS are tied to the same names by the round-trip theorems: a reader
-using another key would not read back what the serialiser writes.) -/
+`Deserialize` with its field / variant identifiers in declaration order, every `serde(..)` attribute, the declared TYPE of every
+field (`jsonFieldTypes`), and the `#[cfg(..)]` conditions of derives, attributes, deriving items, ENCLOSING modules and the
+hand-written impls. The theorems below tie the hand-written names of `Model/Json.lean` to that table: a renamed, added, removed or
+reordered field or variant, a field whose type changes (`nonce: u32` → `u64`, `sig: Option<RctSigBase>` → `RctSigBase`, `[u8; 32]`
+→ `Vec<u8>`, …), a new deriving type, a new attribute (`default`, `rename`, `skip…`, `flatten`, `with`, `tag`, …), a new hand-written
+impl or another feature condition makes one of them false, i.e. the build of this file fails. (The READERS are tied to the same
+names by the round-trip theorems: a reader using another key would not read back what the serialiser writes.)
+What the table does NOT pin: which reader the model uses for a type token is the hand-written correspondence listed at
+`C19_shape_types` (checked on behaviour by the differential run only); a type defined OUTSIDE the crate (`CompressedEdwardsY`) or renamed is compared by name only. -/
 
-/-- the items of /repo that derive serde impls are exactly the ones modelled, each of the kind modelled -/
+/-- the items of /repo that derive serde impls are exactly the ones listed here, each of the kind listed (the list is typed in; what
+ties each NAME to a serialiser of the model: `C19_shape_structs` / `_enums` / `_SubField` for the 26 struct / enum items,
+`C19_shape_newtypes` for the five newtype / fixed_hash items) -/
 theorem C19_shape_items :
     Gen.jsonShapes.map (fun i => (i.name, i.kind)) =
       [("Block", "struct"), ("BlockHeader", "struct"), ("BoroSig", "struct"), ("Bulletproof", "struct"),
@@ -175,9 +186,20 @@ theorem C19_shape_attributes :
 
 /-- "under every configuration": every serde derive and every `serde(..)` attribute in /repo is applied under exactly the
 condition `feature = "serde"` — none unconditionally, none under `full` / `experimental` / another feature, and no deriving item
-carries a `#[cfg(..)]` of its own; so the set of impls and their shapes do not depend on any other feature (statically; the
-harness builds the crate with `serde` + the default features only) -/
-theorem C19_shape_feature_gate : Gen.jsonCfgConditions = ["feature=\"serde\""] := by decide
+carries a `#[cfg(..)]` of its own (first conjunct); no deriving item sits in a module — inline, or a file declared by an
+out-of-line `mod x;` — that carries a `#[cfg(..)]` (second); the two hand-written impls (`Address`) sit under exactly
+`#[cfg(feature = "serde")]` (third: the condition of `mod serde_impl`, no further one on the impls); and the only modules whose
+condition mentions serde are that one and the helper module `amount::serde` (fourth), both under `feature = "serde"` alone. So the
+set of impls, their shapes and the helper functions do not depend on any other feature (statically; the harness builds the crate
+with `serde` + the default features only). Not recorded: `#[cfg]` on single functions INSIDE `amount::serde` (none today; a
+function compiled out would stop the harness from building, since it names all twelve paths) -/
+theorem C19_shape_feature_gate :
+    Gen.jsonCfgConditions = ["feature=\"serde\""] ∧
+    (∀ i ∈ Gen.jsonShapes, (i.name, []) ∈ Gen.jsonEnclosingCfgs) ∧
+    Gen.jsonEnclosingCfgs.filter (fun x => x.2 ≠ []) =
+      Gen.jsonHandWritten.map (fun h => (h, ["feature=\"serde\""])) ∧
+    Gen.jsonSerdeModules = [("util::address::serde_impl", ["feature=\"serde\""]), ("util::amount::serde", ["feature=\"serde\""])] := by
+  decide
 
 /-- every struct is written as an object whose keys are the declared field identifiers, in declaration order — whatever the value -/
 theorem C19_shape_structs :
@@ -227,6 +249,97 @@ theorem C19_shape_SubField :
     (∀ ks, (variantOf (subFieldJ (.addKeys ks))).map (·.1) = subFieldNames[4]?) ∧
     (∀ d, (variantOf (subFieldJ (.minerGate d))).map (·.1) = subFieldNames[5]?) :=
   ⟨by decide, by decide, fun _ => rfl, fun _ => rfl, fun _ => rfl, fun _ _ => rfl, fun _ => rfl, fun _ => rfl⟩
+
+/-- the five newtype / fixed_hash items are written as their CONTENT: `ExtraField` is the array of its sub-fields; `RawExtraField`
+(`transparent` over `Vec<u8>`), `VarInt` (over `u64`), `Hash` / `Hash8` (over `[u8; 32]` / `[u8; 8]`) have no serialiser of their
+own in the model — wherever a field of such a type occurs, the model writes `bytesJ` / `natJ` of the content (one field of each
+type shown; `C19_roundtrip_Hash`, `_Hash8`, `_VarInt`, `_RawExtraField` and the driver's `c19_json hash|hash8|varint` are stated on
+`bytesJ` / `natJ` for this reason) -/
+theorem C19_shape_newtypes :
+    genKind "ExtraField" = "newtype" ∧ genKind "RawExtraField" = "newtype" ∧ genKind "VarInt" = "newtype" ∧
+    genKind "Hash" = "fixed_hash(32)" ∧ genKind "Hash8" = "fixed_hash(8)" ∧
+    (Gen.jsonShapes.filter fun i => i.kind ≠ "struct" ∧ i.kind ≠ "enum").map (·.name) =
+      ["ExtraField", "Hash", "Hash8", "RawExtraField", "VarInt"] ∧
+    (∀ fs, extraFieldJ fs = listJ subFieldJ fs) ∧
+    (∀ p, getKey "extra" (prefixJ p) = some (bytesJ p.extra)) ∧
+    (∀ p, getKey "version" (prefixJ p) = some (natJ p.version)) ∧
+    (∀ h, getKey "prev_id" (headerJ h) = some (bytesJ h.prev)) ∧
+    (∀ a, ecdhJ (.bp a) = .obj [("Bulletproof", .obj [("amount", bytesJ a)])]) :=
+  ⟨by decide, by decide, by decide, by decide, by decide, by decide, fun _ => rfl, fun _ => rfl, fun _ => rfl, fun _ => rfl,
+   fun _ => rfl⟩
+
+/-- the declared TYPE of every field and variant field of /repo (items by name, fields in declaration order), in the
+spelling-independent form the translator gives it — paths cut to their last segment, `Box<T>` / `&T` as `T`, aliases of the crate
+expanded, array lengths evaluated — so that a respelled identical type (`hash::Hash` ↦ `crate::cryptonote::hash::Hash`, `[u8; 32]` ↦
+`[u8; KEY_LEN]`) changes nothing here, while `u32` ↦ `u64`, `Option<T>` ↦ `T`, `Hash` ↦ `Hash8`, `Vec<T>` ↦ `[T; n]` do. The
+model's reader per type token (hand-written correspondence): `u64`, `VarInt` → `readUInt U64`; `u32` → `readUInt U32`; `u8` →
+`readU8` / `readUInt 256`; `[u8;32]`, `Hash`, `CompressedEdwardsY` → `readBytesN 32`; `Hash8` → `readBytesN 8`;
+`Vec<u8>`, `RawExtraField` → `readByteVec`; `Vec<T>` → `readVec`; `Option<T>` → `optField` (a missing key is `None`); `[Key;64]`
+with `BigArray` → `readArrayN 64`; `Amount` with `as_pico` → `readUInt U64`; a struct / enum name → its `…FromJson` -/
+theorem C19_shape_types :
+    Gen.jsonFieldTypes =
+      [("Block", "", "header", "BlockHeader"), ("Block", "", "miner_tx", "Transaction"), ("Block", "", "tx_hashes", "Vec<Hash>"),
+       ("BlockHeader", "", "major_version", "VarInt"), ("BlockHeader", "", "minor_version", "VarInt"),
+       ("BlockHeader", "", "timestamp", "VarInt"), ("BlockHeader", "", "prev_id", "Hash"), ("BlockHeader", "", "nonce", "u32"),
+       ("BoroSig", "", "s0", "Key64"), ("BoroSig", "", "s1", "Key64"), ("BoroSig", "", "ee", "Key"),
+       ("Bulletproof", "", "A", "Key"), ("Bulletproof", "", "S", "Key"), ("Bulletproof", "", "T1", "Key"), ("Bulletproof", "", "T2", "Key"),
+       ("Bulletproof", "", "taux", "Key"), ("Bulletproof", "", "mu", "Key"), ("Bulletproof", "", "L", "Vec<Key>"),
+       ("Bulletproof", "", "R", "Vec<Key>"), ("Bulletproof", "", "a", "Key"), ("Bulletproof", "", "b", "Key"), ("Bulletproof", "", "t", "Key"),
+       ("BulletproofPlus", "", "A", "Key"), ("BulletproofPlus", "", "A1", "Key"), ("BulletproofPlus", "", "B", "Key"),
+       ("BulletproofPlus", "", "r1", "Key"), ("BulletproofPlus", "", "s1", "Key"), ("BulletproofPlus", "", "d1", "Key"),
+       ("BulletproofPlus", "", "L", "Vec<Key>"), ("BulletproofPlus", "", "R", "Vec<Key>"),
+       ("Clsag", "", "s", "Vec<Key>"), ("Clsag", "", "c1", "Key"), ("Clsag", "", "D", "Key"),
+       ("CtKey", "", "mask", "Key"),
+       ("EcdhInfo", "Standard", "mask", "Key"), ("EcdhInfo", "Standard", "amount", "Key"), ("EcdhInfo", "Bulletproof", "amount", "Hash8"),
+       ("ExtraField", "", "0", "Vec<SubField>"), ("Hash", "", "0", "[u8;32]"), ("Hash8", "", "0", "[u8;8]"),
+       ("Index", "", "major", "u32"), ("Index", "", "minor", "u32"),
+       ("Key", "", "key", "[u8;32]"), ("Key64", "", "keys", "[Key;64]"), ("KeyImage", "", "image", "Hash"),
+       ("MgSig", "", "ss", "Vec<Vec<Key>>"), ("MgSig", "", "cc", "Key"),
+       ("PublicKey", "", "point", "CompressedEdwardsY"),
+       ("RangeSig", "", "asig", "BoroSig"), ("RangeSig", "", "Ci", "Key64"),
+       ("RawExtraField", "", "0", "Vec<u8>"),
+       ("RctSig", "", "sig", "Option<RctSigBase>"), ("RctSig", "", "p", "Option<RctSigPrunable>"),
+       ("RctSigBase", "", "rct_type", "RctType"), ("RctSigBase", "", "txn_fee", "Amount"), ("RctSigBase", "", "pseudo_outs", "Vec<Key>"),
+       ("RctSigBase", "", "ecdh_info", "Vec<EcdhInfo>"), ("RctSigBase", "", "out_pk", "Vec<CtKey>"),
+       ("RctSigPrunable", "", "range_sigs", "Vec<RangeSig>"), ("RctSigPrunable", "", "bulletproofs", "Vec<Bulletproof>"),
+       ("RctSigPrunable", "", "bulletproofplus", "Vec<BulletproofPlus>"), ("RctSigPrunable", "", "MGs", "Vec<MgSig>"),
+       ("RctSigPrunable", "", "Clsags", "Vec<Clsag>"), ("RctSigPrunable", "", "pseudo_outs", "Vec<Key>"),
+       ("Signature", "", "c", "Key"), ("Signature", "", "r", "Key"),
+       ("SubField", "TxPublicKey", "0", "PublicKey"), ("SubField", "Nonce", "0", "Vec<u8>"), ("SubField", "Padding", "0", "u8"),
+       ("SubField", "MergeMining", "0", "VarInt"), ("SubField", "MergeMining", "1", "Hash"),
+       ("SubField", "AdditionalPublickKey", "0", "Vec<PublicKey>"), ("SubField", "MysteriousMinerGate", "0", "Vec<u8>"),
+       ("Transaction", "", "prefix", "TransactionPrefix"), ("Transaction", "", "signatures", "Vec<Vec<Signature>>"),
+       ("Transaction", "", "rct_signatures", "RctSig"),
+       ("TransactionPrefix", "", "version", "VarInt"), ("TransactionPrefix", "", "unlock_time", "VarInt"),
+       ("TransactionPrefix", "", "inputs", "Vec<TxIn>"), ("TransactionPrefix", "", "outputs", "Vec<TxOut>"),
+       ("TransactionPrefix", "", "extra", "RawExtraField"),
+       ("TxIn", "Gen", "height", "VarInt"), ("TxIn", "ToKey", "amount", "VarInt"), ("TxIn", "ToKey", "key_offsets", "Vec<VarInt>"),
+       ("TxIn", "ToKey", "k_image", "KeyImage"),
+       ("TxOut", "", "amount", "VarInt"), ("TxOut", "", "target", "TxOutTarget"),
+       ("TxOutTarget", "ToKey", "key", "[u8;32]"), ("TxOutTarget", "ToTaggedKey", "key", "[u8;32]"),
+       ("TxOutTarget", "ToTaggedKey", "view_tag", "u8"),
+       ("VarInt", "", "0", "u64")] := by decide +kernel
+
+/-- the type-dependent behaviour of the model's readers at the places the review named (instances, true by evaluation of the
+model — they document which side of each boundary the model takes for the types pinned above; the library's side is compared by the
+harness probes `c19_de header|index|txout|rctsig|key64|ecdh`): `nonce: u32` and `Index { u32, u32 }` read `2^32 − 1` and refuse
+`2^32`; `view_tag: u8` reads 255 and refuses 256; `RctSig`'s `Option` fields may be missing (`{}` is `(None, None)`) while
+`Transaction`'s fields may not; `[Key; 64]` refuses an array of another length; `Hash8` refuses 32 numbers -/
+theorem C19_shape_types_boundaries :
+    headerFromJson (.obj [("major_version", .num 1), ("minor_version", .num 2), ("timestamp", .num 3),
+      ("prev_id", bytesJ (List.replicate 32 7)), ("nonce", .num (2 ^ 32 - 1))]) = some ⟨1, 2, 3, List.replicate 32 7, 2 ^ 32 - 1⟩ ∧
+    headerFromJson (.obj [("major_version", .num 1), ("minor_version", .num 2), ("timestamp", .num 3),
+      ("prev_id", bytesJ (List.replicate 32 7)), ("nonce", .num (2 ^ 32))]) = none ∧
+    indexFromJson (.obj [("major", .num (2 ^ 32 - 1)), ("minor", .num 0)]) = some (2 ^ 32 - 1, 0) ∧
+    indexFromJson (.obj [("major", .num (2 ^ 32)), ("minor", .num 0)]) = none ∧
+    targetFromJson (.obj [("ToTaggedKey", .obj [("key", bytesJ (List.replicate 32 7)), ("view_tag", .num 255)])]) =
+      some (.tagged (List.replicate 32 7) 255) ∧
+    targetFromJson (.obj [("ToTaggedKey", .obj [("key", bytesJ (List.replicate 32 7)), ("view_tag", .num 256)])]) = none ∧
+    rctSigFromJson (.obj []) = some (none, none) ∧ txFromJson (.obj []) = none ∧
+    key64FromJson (.obj [("keys", listJ keyJ (List.replicate 63 (List.replicate 32 7)))]) = none ∧
+    ecdhFromJson (.obj [("Bulletproof", .obj [("amount", bytesJ (List.replicate 32 7))])]) = none ∧
+    ecdhFromJson (.obj [("Bulletproof", .obj [("amount", bytesJ (List.replicate 8 7))])]) = some (.bp (List.replicate 8 7)) := by
+  refine ⟨?_, ?_, ?_, ?_, ?_, ?_, ?_, ?_, ?_, ?_, ?_⟩ <;> rfl
 
 /-! ## amount helpers -/
 
@@ -318,8 +431,10 @@ theorem C19_amount_vec_refused (signed : Bool) (xs : List Int) (a : Int) (ha : a
 particular a string that was written with escape sequences or handed over as an owned string by a non-borrowing
 deserialiser (`serde_json::from_reader`, `from_value`). (Before the fix of `as_xmr::vec` the element reader asked for a
 borrowed `&str` and refused those; the harness cases `c19_amount_de … vec` with escapes and `c19_amount_rd` are the
-regression test.) -/
-theorem C19_amount_vec_reads_like_single (signed : Bool) (e : AmtEnc) (js : List Json) :
+regression test.) BY DEFINITION of the model (`amtElemFromJson` is `amtFromJson`; `rfl`) — a remark about how the model is
+written, not evidence about the code, hence no `C19_` name: what ties it to the library is the harness (`c19_amount_de … vec` with
+escapes, `c19_amount_rd`, and the plain / opt / vec agreement checks) -/
+theorem amount_vec_reads_like_single (signed : Bool) (e : AmtEnc) (js : List Json) :
     amtVecFromJson signed e (.arr js) = mapOpt (amtFromJson signed e) js := rfl
 
 /-- the same six paths used the documented way, as fields of a struct (`HasAmount { amount }`, `{ amounts }`) -/
@@ -420,8 +535,11 @@ theorem C19_amount_in_struct_refused (signed : Bool) (a : Int) (h : InRange sign
   · simp only [hasOptAmountFromJson, hasOptAmountJ, fieldsOf_one, C19_amount_opt_refused signed a h hs]
   · simp only [hasAmountsFromJson, hasAmountsJ, fieldsOf_one, C19_amount_vec_refused signed xs a hx h hs]
 
-/-- a missing field: refused for the plain wrapper (no `default`), `None` / empty for the `#[serde(default, …)]` wrappers -/
-theorem C19_amount_struct_missing_field (signed : Bool) (e : AmtEnc) :
+/-- a missing field: refused for the plain wrapper (no `default`), `None` / empty for the `#[serde(default, …)]` wrappers —
+BY DEFINITION of the model (the `[none]` arms of `hasOptAmountFromJson` / `hasAmountsFromJson` ARE the model's reading of
+`#[serde(default)]`; `rfl`), recorded as documentation of that reading, not as evidence, hence no `C19_` name; the library's side is
+observed by the harness documents `{}` and `[]` of `c19_amount_de` -/
+theorem amount_struct_missing_field (signed : Bool) (e : AmtEnc) :
     hasAmountFromJson signed e (.obj []) = none ∧ hasOptAmountFromJson signed e (.obj []) = some none ∧
     hasAmountsFromJson signed e (.obj []) = some [] := ⟨rfl, rfl, rfl⟩
 
@@ -477,6 +595,39 @@ example : _root_.wfTx ⟨⟨2, 0, [], [], []⟩, [], none, none⟩ := by
   simp [_root_.wfTx, _root_.wfPrefix, VecOK, _root_.U64, Monero.CAP, Gen.CAP]
 example : ∃ b t r, tx b = some (t, r) :=
   ⟨_, _, [], complete_tx ⟨⟨2, 0, [], [], []⟩, [], none, none⟩ [] (by simp [_root_.wfTx, _root_.wfPrefix, VecOK, _root_.U64, Monero.CAP, Gen.CAP])⟩
+/-- the WIRE predicate of `C19_wf_of_wire` / `C19_roundtrip_wire` / `C19_roundtrip_wire_then_json` and the hypothesis of the
+`_decoded` theorems hold of a transaction with a KEY input, a Clsag base and a prunable part (C02's witness, `C02_wf_inhabited`);
+its prefix and a block carrying it as `miner_tx` with one transaction hash satisfy the wire predicates of the prefix / block
+theorems and are returned by the decoders -/
+example : ∃ t, _root_.wfTx t ∧ t.pre.ins ≠ [] ∧ t.base.map (·.ty) = some 5 ∧ (∃ b, tx b = some (t, [])) ∧
+    _root_.wfPrefix t.pre ∧ (∃ b, prefix' b = some (t.pre, [])) ∧
+    (∃ x : Block, x.miner = t ∧ x.hashes ≠ [] ∧ _root_.wfBlock x ∧ ∃ b, block b = some (x, [])) := by
+  have hm : (2, some 5, C02.sampleBytes 2 ([5, 0] ++ [0] ++ List.replicate 96 0 ++ List.replicate 32 0)) ∈ C02.samples := by
+    simp [C02.samples]
+  obtain ⟨t, hw, _, hb, hi, hs⟩ := C02.C02_wf_inhabited _ hm
+  have hx : _root_.wfBlock ⟨⟨1, 2, 3, List.replicate 32 0, 7⟩, t, [List.replicate 32 9]⟩ := by
+    have u (n : Nat) (h : n < 2^64) : _root_.U64 n := h
+    refine ⟨⟨u 1 (by decide), u 2 (by decide), u 3 (by decide), by simp [Key32], (by decide : (7 : Nat) < 2 ^ 32)⟩, hw, ?_,
+      (by decide : 1 * sizes.key ≤ CAP), (by decide : 1 < 2 ^ 64)⟩
+    intro k hk; simp at hk; subst hk; simp [Key32]
+  refine ⟨t, hw, hi, hb, ⟨_, strict_some.mp hs⟩, hw.1, ⟨encPrefix t.pre, ?_⟩,
+    ⟨⟨⟨1, 2, 3, List.replicate 32 0, 7⟩, t, [List.replicate 32 9]⟩, rfl, ?_, hx,
+      ⟨encBlock ⟨⟨1, 2, 3, List.replicate 32 0, 7⟩, t, [List.replicate 32 9]⟩, ?_⟩⟩⟩
+  · simpa using complete_prefix t.pre [] hw.1
+  · simp
+  · simpa using complete_block _ [] hx
+example : Extra.subFieldRd (fun _ => true) [0x02, 0x01, 0xaa] = (some (.nonce [0xaa]), []) := by decide
+example : (Extra.tryParse (fun _ => true) [0x02, 0x01, 0xaa, 0x00, 0x00]).fields = [.nonce [0xaa], .padding 1] := by decide
+/-- hypothesis of `C19_amount_xmr_cap`: the reader accepts something, and the accepted value is what the text says -/
+example : amtFromJson false .xmr (.str (ascii "1.5")) = some 1500000000000 := by decide
+example : amtFromJson true .xmr (.strEsc (ascii "-0.000000000001")) = some (-1) := by decide
+/-- `Json.owned` bites on a borrowing reader and on none of the model's readers: `readBorrowedStr` (what `as_xmr::vec` asked for
+before its fix) refuses an owned string, `readString` (every reader of the model today) does not distinguish — which is why the
+`rd` / `val` / `slice` columns of `c19_json_rd` are, on the model side, the same prediction as `rt` -/
+example : readBorrowedStr (owned 1 (.str [0x31])) = none ∧ readBorrowedStr (.str [0x31]) = some [0x31] ∧
+    readString (owned 1 (.str [0x31])) = readString (.str [0x31]) := ⟨rfl, rfl, rfl⟩
+/-- hypothesis of `C19_SubField_unknown_variant_refused` -/
+example : "Padding2" ∉ subFieldNames ∧ "padding" ∉ subFieldNames := by decide
 example : ∀ f ∈ [Extra.SubField.txPub (List.replicate 32 7), .nonce [1, 2], .padding 255, .mergeMining (2 ^ 64 - 1) (List.replicate 32 0),
     .addKeys [List.replicate 32 1], .minerGate []], Json.wfSubField f := by
   simp [Json.wfSubField, Json.U64]
